@@ -44,6 +44,7 @@ Fails(e) == CASE e.e = "tree" -> FailsTree(e)
               [] e.e = "count" -> (IF e.got = e.expect THEN {} ELSE {e.p \o "." \o e.fmt \o ".number_of_trees_read"})
               [] e.e = "text_eq" -> (IF e.a = e.b THEN {} ELSE {e.p \o "." \o e.fmt \o "." \o e.what})
               [] e.e = "must_raise" -> (IF e.raised THEN {} ELSE {e.p \o "." \o e.fmt \o "." \o e.what})
+              [] e.e = "jsent" -> Pre(e.p \o ".jigg_xml.", JiggSentenceFails(e.spanids, e.ccgids))
               [] e.e = "dispatch" -> (IF e.ran = <<ReaderByExtension(e.name)>> THEN {} ELSE {"DISPATCH.readers_run_are_not_exactly_the_one_the_extension_names"})
               [] e.e = "unreadable" -> {e.p \o "." \o e.fmt \o ".unreadable"}
               [] e.e = "raised" -> {e.p \o "." \o e.fmt \o ".render_raised"}
